@@ -858,6 +858,7 @@ func genCdcnParse(prop string, seed uint64, tier, outDir string, count int) erro
 			break
 		}
 		c := pCase{src: t.src, kind: t.kind}
+		markCase(fmt.Sprintf("ParseSource / the scanner on the source text %q (input kind %s)", t.src, t.kind))
 		c.toks = scanAll(t.src)
 		baseline := knownLeaked + leakedScanners(knownLeaked) // scanner goroutines left by earlier cases (none on the repaired tree)
 		// One parser instance serves a whole group of consecutive texts (failing and valid ones
